@@ -338,7 +338,8 @@ func (g *G) Struct(v reflect.Value, depth int) {
 	chosen := map[int]bool{}
 	for _, f := range fields {
 		if f.Type.Kind() == reflect.Interface && !f.Skip {
-			if c := selectors(t, f.Name); c != nil && g.R.Intn(100) < 88 {
+			// a required dynamic field of a well-formed value must be dispatchable
+			if c := selectors(t, f.Name); c != nil && ((g.WF && f.Required) || g.R.Intn(100) < 88) {
 				if c.enum {
 					v.Field(c.field).SetUint(c.nums[g.R.Intn(len(c.nums))])
 				} else {
